@@ -8,12 +8,18 @@ from mindsdb_sql.parser.ast.select import Star
 
 
 no_wrap_identifier_regex = re.compile(r'[a-zA-Z_][a-zA-Z_0-9]*')
-path_str_parts_regex = re.compile(r'(?:(?:(`[^`]+`))|([^.]+))')
+path_str_parts_regex = re.compile(r'(?:(?:(`(?:[^`]|``)+`))|([^.]+))')
 
 
 def path_str_to_parts(path_str: str):
     match = re.finditer(path_str_parts_regex, path_str)
-    parts = [x[0].strip('`') for x in match]
+    parts = []
+    for x in match:
+        if x[1] is not None:
+            # back-quoted part: remove the delimiters, a doubled back-quote stands for one
+            parts.append(x[1][1:-1].replace('``', '`'))
+        else:
+            parts.append(x[0].strip('`'))
     return parts
 
 
@@ -69,7 +75,7 @@ class Identifier(ASTNode):
                     or
                     part.upper() in reserved_words
                 ):
-                    part = f'`{part}`'
+                    part = '`' + part.replace('`', '``') + '`'
 
             out_parts.append(part)
         return '.'.join(out_parts)
